@@ -51,7 +51,8 @@ RaceCheck == IsEv("racecheck") /\ UNCHANGED <<D, firstReq, nIter, yielded>>
 \* the environment makes every block available again; the node keeps its cache
 Heal == IsEv("heal") /\ D' = [D EXCEPT !.missing = <<>>] /\ UNCHANGED <<firstReq, nIter, yielded>>
 Done == l = Len(Trace) + 1 /\ UNCHANGED vars
-Next == Reset \/ Dir \/ OpenNode \/ Lookup \/ Iter \/ Length \/ Big \/ RaceCheck \/ Heal \/ Done
+Crash == IsEv("crash") /\ UNCHANGED <<D, firstReq, nIter, yielded>>
+Next == Crash \/ Reset \/ Dir \/ OpenNode \/ Lookup \/ Iter \/ Length \/ Big \/ RaceCheck \/ Heal \/ Done
 TraceSpec == Init /\ [][Next]_vars
 
 (***************************************************************************)
@@ -82,7 +83,8 @@ NotFoundRes(how) == IF how = "native" THEN "nil" ELSE "notfound"
 ErrRes(how) == IF how = "native" THEN "nil" ELSE "err"
 
 Cond_Harness_WF == (Has /\ Ev.ev = "dir" /\ Ev.kind = "hamt") => ShardTableWF(Ev.S)
-Cond_NoPanic == (Has /\ "e" \in DOMAIN Ev) => (Ev.e # "panic" /\ Ev.e # "budget")
+NoCrash == ~(l > 1 /\ Trace[l - 1].ev = "crash")   \* the code under test took the whole harness process down (driver: mark_crash)
+Cond_NoPanic == NoCrash /\ ((Has /\ "e" \in DOMAIN Ev) => (Ev.e # "panic" /\ Ev.e # "budget"))
 
 \* ---- C02: the reified directory is the map of its entries ----
 Cond_C02_Stored == (Has /\ Ev.ev = "dir" /\ Ev.builder # "raw") =>
@@ -142,6 +144,9 @@ Cond_C12_Iter == (Has /\ Ev.ev = "iter" /\ IsHamt) =>
     /\ Ev.res = "done"
     /\ Ev.pairs = r.pairs
     /\ Ev.errs = r.errs
+\* Length has no error result: when a shard it needs cannot be loaded it must not pass off the entries it did reach
+\* as the count (its failure value is 0, or -1)
+Cond_C12_Length == (Has /\ Ev.ev = "length" /\ IsHamt /\ Ev.failed # <<>>) => Ev.n <= 0
 Cond_C12_IterTerminates == (Has /\ Ev.ev = "iter") => Ev.res \in {"done", "noiter"}
 
 \* ---- C15: the map-node contract on any link list / any well-formed HAMT ----
@@ -192,6 +197,7 @@ Inv_C12_Lookup == Chk("Inv_C12_Lookup", Cond_C12_Lookup)
 Inv_C12_Iter == Chk("Inv_C12_Iter", Cond_C12_Iter)
 Inv_C12_IterTerminates == Chk("Inv_C12_IterTerminates", Cond_C12_IterTerminates)
 Inv_C15_Iter == Chk("Inv_C15_Iter", Cond_C15_Iter)
+Inv_C12_Length == Chk("Inv_C12_Length", Cond_C12_Length)
 Inv_C15_Length == Chk("Inv_C15_Length", Cond_C15_Length)
 Inv_C15_Lookup == Chk("Inv_C15_Lookup", Cond_C15_Lookup)
 Inv_C17_MissingShard == Chk("Inv_C17_MissingShard", Cond_C17_MissingShard)
